@@ -10,6 +10,10 @@ open RaftWal RaftWal.Verifier
 /-- T1: the current source resets the running checksum in `LogStore.DeleteRange` (the model's `resetOnDelete`) -/
 theorem delete_resets_sum : Generated.verifierDeleteResets = true := by decide
 
+/-- the code publishes the running sum (and hands reports over) only after the store underneath accepted the batch — the
+    order of `Node.storeLogs`, whose error branch returns the node unchanged (`C18.failed_store_changes_nothing`) -/
+theorem sum_published_after_store : Generated.verifierPublishesAfterStore = true := by decide
+
 /-- **batch independence**: the running sum over a sequence of entries does not depend on how the entries
     were split into StoreLogs batches -/
 theorem batch_independent (s : UInt64) (a b : List Log) : chain s (a ++ b) = chain (chain s a) b :=
